@@ -37,10 +37,7 @@ func oneshotOutcome(bin string, seed uint64, tier string, i int) (string, error)
 // of the pristine build, and of the instrumented build with the simulator inert.  A
 // difference between the two is an instrumentation infidelity (status 2), never a verdict.
 func c19Pre(c *checkCtx) {
-	n := 400
-	if c.tier == "thorough" {
-		n = 4000
-	}
+	n := corpusCount(c)
 	pri := make([]string, n)
 	ins := make([]string, n)
 	var wg sync.WaitGroup
@@ -98,4 +95,21 @@ func c19Pre(c *checkCtx) {
 	c.extra["corpus_items"] = n
 	c.extra["corpus_items_whose_parse_fails"] = fails
 	c.extra["corpus_distinct_outcomes"] = len(distinct)
+}
+
+// corpusCount asks the worker how many items the corpus of this seed/tier has.
+func corpusCount(c *checkCtx) int {
+	cmd := exec.Command(c.bin, "-prop", "C19", "-seed", strconv.FormatUint(c.seed, 10), "-tier", c.tier, "-emit-corpus")
+	cmd.Env = append(os.Environ(), "GOMAXPROCS=1")
+	out, err := cmd.Output()
+	if err != nil {
+		c.env.cleanup()
+		exit2("corpus: %v", err)
+	}
+	n := bytes.Count(out, []byte("\n"))
+	if n == 0 {
+		c.env.cleanup()
+		exit2("empty corpus")
+	}
+	return n
 }
